@@ -1,3 +1,5 @@
+#include <algorithm>
+
 #include <asam_cmp/payload_type.h>
 #include <asam_cmp/tecmp_can_payload.h>
 
@@ -80,6 +82,6 @@ uint32_t TECMP::CanPayload::getCrc() const
     uint32_t result = 0;
     auto crcOffset = sizeof(Header) + getHeader()->getDlc();
     auto crcPtr = payloadData.data() + crcOffset;
-    memcpy((void*) &result, crcPtr, 3);
+    memcpy((void*) &result, crcPtr, std::min<size_t>(3, payloadData.size() - crcOffset));
     return result;
 }
